@@ -1,5 +1,5 @@
 (* C47 — proofs, part 4: what reaches the transport is what the application produced (plus the
-   defaults); chunked output is never used; the two refuted statements; observables round-trip. *)
+   defaults); chunked output is never used; instances for the two former defects. *)
 From Coq Require Import List NArith ZArith Bool String Lia ZifyBool.
 Import ListNotations.
 From TV Require Import Lib.Obs Lib.C21_Utf8 Lib.C21_Pct C47.Model C47.Run C47.Proofs C47.Proofs2 C47.Proofs3.
